@@ -165,3 +165,106 @@ theorem unblocked_first_key (root : CTy) (blocked : List String) (k : String) (k
 #print axioms blocked_first_key_rejected
 #print axioms unblocked_first_key
 end Mp
+
+namespace Mp
+/-! ### what is offered at the root (cue.go getAvailableFieldsForValue): the declared root fields that are not blocked -/
+
+theorem offered_iff (root : CTy) (defNames : List String) (cp : String) (bl off : List String)
+    (hb : blockedFields root defNames cp = some bl) (ho : offeredFields root defNames cp = some off) :
+    ∀ f, f ∈ off ↔ f ∈ rootFieldNames root defNames ∧ f ∉ bl := by
+  intro f
+  unfold offeredFields at ho
+  rw [hb] at ho
+  simp only [Option.map_some, Option.some.injEq] at ho
+  subst ho
+  simp [List.mem_filter]
+
+/-- without a current step every declared root field is offered -/
+theorem offered_without_step (root : CTy) (defNames : List String) :
+    offeredFields root defNames "" = some (rootFieldNames root defNames) := by
+  simp [offeredFields, blockedFields]
+
+/-- **C15, the offer**: with a current step `cp`, the fields offered at the root are exactly the declared root fields that are
+    a base path, or the current step when it is `input`, or reachable from the current step's `_dependencies` through any
+    number of `_dependencies` edges - the current step itself (unless it is `input`) and every other step are left out. -/
+theorem offered_exact (isOpen : Bool) (fs : List CField) (cp : String) (hcp : cp ≠ "") (off : List String)
+    (h : offeredFields (.struct isOpen fs) [] cp = some off) :
+    ∃ deps, depsOf (.struct isOpen fs) cp = some deps ∧ ∀ f, f ∈ off ↔
+      f ∈ rootFieldNames (.struct isOpen fs) [] ∧ ¬ (f = cp ∧ cp ≠ "input") ∧
+        (f = cp ∨ f ∈ baseNames ∨ ∃ s ∈ deps, Deps.Reach (graphOf isOpen fs) s f) := by
+  cases hb : blockedFields (.struct isOpen fs) [] cp with
+  | none => simp [offeredFields, hb] at h
+  | some bl =>
+    obtain ⟨deps, hd, hbl⟩ := blocked_iff isOpen fs cp hcp bl hb
+    refine ⟨deps, hd, ?_⟩
+    intro f
+    rw [offered_iff _ _ _ bl off hb h f, hbl f]
+    constructor
+    · rintro ⟨hroot, hnb⟩
+      refine ⟨hroot, fun hc => hnb (Or.inl hc), ?_⟩
+      by_cases h1 : f = cp
+      · exact Or.inl h1
+      · by_cases h2 : f ∈ baseNames
+        · exact Or.inr (Or.inl h2)
+        · by_cases h3 : ∃ s ∈ deps, Deps.Reach (graphOf isOpen fs) s f
+          · exact Or.inr (Or.inr h3)
+          · exact absurd (Or.inr ⟨hroot, h1, h2, h3⟩) hnb
+    · rintro ⟨hroot, hnc, hor⟩
+      refine ⟨hroot, ?_⟩
+      rintro (hc | ⟨_, h1, h2, h3⟩)
+      · exact hnc hc
+      · rcases hor with h | h | h
+        · exact h1 h
+        · exact h2 h
+        · exact h3 h
+
+/-- below the first key the verdict is never "blocked" -/
+theorem validateKeys_not_blocked (root : CTy) (bl : List String) : ∀ (ks p : List String) (cur : Option (String × String)),
+    validateKeys root bl ks p cur false ≠ .rej "blocked" := by
+  intro ks
+  induction ks with
+  | nil => intro p cur; cases cur <;> simp [validateKeys]
+  | cons k ks ih =>
+    intro p cur
+    simp only [validateKeys, Bool.false_and, Bool.false_eq_true, if_false]
+    split
+    · rename_i r hr
+      split at hr
+      · split at hr
+        · cases hr; simp
+        · cases hr
+      · cases hr; simp
+      · cases hr
+    · cases findValueAtPath root (p ++ [k]) with
+      | none => simp
+      | some v =>
+        simp only []
+        cases kindOf v with
+        | none => simp
+        | some ti => exact ih _ _
+
+/-- **the offer and the verdict agree**: a declared root field is offered exactly when a query that starts at it is not
+    rejected as unavailable, whatever follows the first key -/
+theorem offered_coherent (root : CTy) (defNames : List String) (cp : String) (bl off : List String)
+    (hb : blockedFields root defNames cp = some bl) (ho : offeredFields root defNames cp = some off)
+    (f : String) (ks : List String) (hf : f ∈ rootFieldNames root defNames) :
+    f ∈ off ↔ validateKeys root bl (f :: ks) [] none true ≠ .rej "blocked" := by
+  rw [offered_iff root defNames cp bl off hb ho f]
+  constructor
+  · rintro ⟨_, hnb⟩
+    simp only [validateKeys, hnb, List.contains_eq_mem, decide_false, Bool.and_false, Bool.false_eq_true, if_false,
+      List.nil_append]
+    cases findValueAtPath root [f] with
+    | none => simp
+    | some v =>
+      simp only []
+      cases kindOf v with
+      | none => simp
+      | some ti => exact validateKeys_not_blocked root bl ks [f] (some ti)
+  · intro hne
+    refine ⟨hf, fun hmem => hne (blocked_first_key_rejected root bl f ks hmem)⟩
+
+#print axioms offered_iff
+#print axioms offered_exact
+#print axioms offered_coherent
+end Mp
